@@ -34,3 +34,4 @@ Check c06_viss_disabled_get_refusal : forall st path e,
   Viss.viss_get st Viss.TokOpen path = inr e -> e = Viss.VNotFound.
 Check c06_viss_disabled_subscribe : forall st path st' e,
   Viss.viss_subscribe st Viss.TokOpen path = (st', inr e) -> e <> Viss.VTokenMissing /\ e <> Viss.VTokenInvalid.
+Check c06_same_token_after_expiry_refused : forall st rpc k h, snd (call true st rpc k (expire h)) = UNAUTHENTICATED.
